@@ -108,7 +108,51 @@ Definition finish_hash : M bytes := fun s =>
   let '(h, r) := rd_finish_hash (rdr s) in
   (Ok h, {| rdr := r; evs_rev := evs_rev s; nev := nev s; fail_at := fail_at s |}).
 
-(* ReadCRL after the algorithm identifier has been found *)
+(* ---- ReadCRL after the algorithm identifier has been found, cut into its phases *)
+
+(* version, inner algorithm, issuer, thisUpdate, nextUpdate; StartUpdateCrl *)
+Definition read_tbs_header : M (Z * bytes) :=
+  has_v <- version_exists ;;
+  version <- (if has_v then parse_version else ret 1%Z) ;;
+  (if (2 <? version)%Z then fail e_version else ret tt) ;;;
+  ignore_err (read_struct L KAlgId) ;;;
+  issuer <- read_struct L KRdn ;;
+  this_update <- read_utc_time L ;;
+  has_next <- next_update_exists ;;
+  next_update <- (if has_next then (t <- read_utc_time L ;; ret (Some t)) else ret None) ;;
+  emit (EvStart issuer this_update next_update) ;;;
+  ret (version, issuer).
+
+(* revokedCertificates, looked for only before the end of tbsCertList *)
+Definition read_list_opt (fuel : nat) (tbs_end : Z) : M unit :=
+  pos1 <- bytes_read ;;
+  has_list <- (if (pos1 <? tbs_end)%Z then revoked_list_exists else ret false) ;;
+  if has_list then parse_revoked_list fuel else ret tt.
+
+(* crlExtensions *)
+Definition read_exts_opt (tbs_end version : Z) : M (option bytes) :=
+  pos2 <- bytes_read ;;
+  has_exts <- (if (pos2 <? tbs_end)%Z then extensions_exist version else ret false) ;;
+  if has_exts then
+    ignore_err read_tag_length ;;;
+    x <- read_struct L KExts ;;
+    ret (Some x)
+  else ret None.
+
+(* UpdateExtendedMetaInfo and the critical-extension gate *)
+Definition finish_meta (exts : option bytes) : M unit :=
+  number <- (match exts with Some x => crl_number_of x | None => ret None end) ;;
+  emit (EvExtMeta number) ;;;
+  match exts with
+  | Some x => if critical_unhandled (lib_exts L x) then fail e_critical else ret tt
+  | None => ret tt
+  end.
+
+(* outer signatureAlgorithm (skipped) and signatureValue *)
+Definition read_tail : M (bytes * Z) :=
+  ignore_err (read_struct L KAlgId) ;;;
+  parse_bit_string.
+
 Definition read_main (fuel : nat) (alg_tlv : bytes) : M read_result :=
   outer <- read_tag_length ;;
   expect_tag TAG_SEQ (t_tag outer) ;;;
@@ -119,35 +163,14 @@ Definition read_main (fuel : nat) (alg_tlv : bytes) : M read_result :=
   (if is_int64 (t_len tbs) then ret tt else fail e_limit) ;;;
   pos0 <- bytes_read ;;
   let tbs_end := (pos0 + t_len tbs)%Z in
-  has_v <- version_exists ;;
-  version <- (if has_v then parse_version else ret 1%Z) ;;
-  (if (2 <? version)%Z then fail e_version else ret tt) ;;;
-  ignore_err (read_struct L KAlgId) ;;;
-  issuer <- read_struct L KRdn ;;
-  this_update <- read_utc_time L ;;
-  has_next <- next_update_exists ;;
-  next_update <- (if has_next then (t <- read_utc_time L ;; ret (Some t)) else ret None) ;;
-  emit (EvStart issuer this_update next_update) ;;;
-  pos1 <- bytes_read ;;
-  has_list <- (if (pos1 <? tbs_end)%Z then revoked_list_exists else ret false) ;;
-  (if has_list then parse_revoked_list fuel else ret tt) ;;;
-  pos2 <- bytes_read ;;
-  has_exts <- (if (pos2 <? tbs_end)%Z then extensions_exist version else ret false) ;;
-  exts <- (if has_exts then
-             ignore_err read_tag_length ;;;
-             x <- read_struct L KExts ;;
-             ret (Some x)
-           else ret None) ;;
-  number <- (match exts with Some x => crl_number_of x | None => ret None end) ;;
-  emit (EvExtMeta number) ;;;
-  (match exts with
-   | Some x => if critical_unhandled (lib_exts L x) then fail e_critical else ret tt
-   | None => ret tt end) ;;;
+  hdr <- read_tbs_header ;;
+  read_list_opt fuel tbs_end ;;;
+  exts <- read_exts_opt tbs_end (fst hdr) ;;
+  finish_meta exts ;;;
   digest_input <- finish_hash ;;
-  ignore_err (read_struct L KAlgId) ;;;
-  sig <- parse_bit_string ;;
+  sig <- read_tail ;;
   ret {| r_hash := fst strat; r_verifier := snd strat; r_alg := alg_tlv; r_sig := fst sig; r_sig_bits := snd sig;
-         r_digest_input := digest_input; r_issuer := issuer; r_exts := exts |}.
+         r_digest_input := digest_input; r_issuer := snd hdr; r_exts := exts |}.
 
 (* ReadCRL on the decoded byte stream; s1/s2 are the chunk schedules of the two passes *)
 Definition read_stream (stream : bytes) (s1 s2 : list nat) (fail : option nat) : list event * res read_result * list Z :=
